@@ -2,6 +2,7 @@
 package c04
 
 import (
+	"strings"
 	"time"
 
 	"github.com/nats-io/nats.go"
@@ -41,7 +42,7 @@ func newEdge(node, parent, typ string, ts int64) Req {
 }
 
 // NumHistories is the number of histories.
-const NumHistories = 4
+const NumHistories = 5
 
 // Universe of node ids used by the histories.
 var Universe = []string{"A", "B", "C"}
@@ -86,6 +87,18 @@ func History(h int, root string) []Req {
 			newEdge("B", "A", "group", 13),
 			newEdge("A", root, "group", 14),
 			np("C", "update deep below", data.Point{Type: "value", Value: 5, Time: t(15)}),
+		}
+	case 4:
+		// long texts: rows that spill into overflow page chains, rewritten and deleted again
+		long := func(c string) string { return strings.Repeat(c, 9000) + "." }
+		return []Req{
+			newEdge("A", root, "group", 10),
+			np("A", "9 kB text on A", data.Point{Type: "file", Text: long("a"), Time: t(11)}, data.Point{Type: "value", Value: 1, Time: t(12)}),
+			newEdge("B", "A", "variable", 13),
+			np("A", "9 kB text rewritten", data.Point{Type: "file", Text: long("b"), Time: t(14)}),
+			ep("B", "A", "9 kB text on an edge", data.Point{Type: "cert", Text: long("c"), Time: t(15)}),
+			np("A", "text shortened", data.Point{Type: "file", Text: "short", Time: t(16)}),
+			ep("B", "A", "delete B under A", data.Point{Type: data.PointTypeTombstone, Value: 1, Time: t(17)}),
 		}
 	default:
 		// large batches: many pages in one transaction
